@@ -1,10 +1,12 @@
 // C16 harness: shared cache (utils/sharedcache), both cache kinds, over the in-memory back end behind the
 // fault-injecting / scheduling shim.
-//   seq.go   sequential scenarios: every backend operation k of a Store / Fetch x {error, short write, crash, crash
-//            with a partial write}, followed by fresh-client CleanEntry / Fetch / Store / Fetch;
-//   conc.go  2..4 concurrent clients of the immutable cache under a deterministic operation-level scheduler, and
-//            lock-mediated scenarios of the mutable cache (a holder paused inside its critical section);
-//   zipcut.go the attack on the prefix-invalidity hypothesis of zip.
+//
+//	seq.go   sequential scenarios: every backend operation k of a Store / Fetch x {error, short write, crash, crash
+//	         with a partial write}, followed by fresh-client CleanEntry / Fetch / Store / Fetch;
+//	conc.go  2..4 concurrent clients of the immutable cache under a deterministic operation-level scheduler, and
+//	         lock-mediated scenarios of the mutable cache (a holder paused inside its critical section);
+//	zipcut.go the attack on the prefix-invalidity hypothesis of zip.
+//
 // Oracle (independent of the Coq model): a Fetch that reports success installed exactly one stored version; a Store
 // that reported success is what later Fetches return.
 package main
